@@ -373,7 +373,35 @@ fn insert_before_first_floor(text: &str, extra: &str) -> Option<String> {
 // ---------------------------------------------------------------- child process for E4
 
 /// `cte-mc sched <threads> <ops-per-thread> <bound|inf> <cap>`: explores schedules, prints one JSON line
+/// child process: every scheduled operation with each non-empty subset of the three tables busy at lookup time
+fn busy_main() -> i32 {
+    sched::install();
+    let ops: [usize; 5] = [5, 6, 3, 7, 8];
+    let refs: Vec<u64> = ops.iter().map(|o| run_op(*o)).collect();
+    let mut runs = 0u64;
+    let mut failures = vec![];
+    for (k, op) in ops.iter().enumerate() {
+        for mask in 1u8..8 {
+            let before = sched::BUSY_LOOKUPS.load(std::sync::atomic::Ordering::Relaxed);
+            let r = sched::with_busy_tables(mask, || std::panic::catch_unwind(|| run_op(*op)));
+            let delayed = sched::BUSY_LOOKUPS.load(std::sync::atomic::Ordering::Relaxed) - before;
+            runs += 1;
+            let busy: Vec<&str> = (0..3).filter(|i| mask & (1 << i) != 0).map(|i| sched::TABLES[i]).collect();
+            match r {
+                Ok(h) if h == refs[k] => {}
+                Ok(_) => failures.push(json!({"operation": OP_NAMES[*op], "busy": busy, "lookups_delayed": delayed, "what": "differs"})),
+                Err(_) => failures.push(json!({"operation": OP_NAMES[*op], "busy": busy, "lookups_delayed": delayed, "what": "panicked"})),
+            }
+        }
+    }
+    println!("{}", json!({"runs": runs, "lookups_delayed": sched::BUSY_LOOKUPS.load(std::sync::atomic::Ordering::Relaxed), "failures": failures}));
+    0
+}
+
 pub fn sched_main(args: &[String]) -> i32 {
+    if args[0] == "busy" {
+        return busy_main();
+    }
     let nt: usize = args[0].parse().unwrap();
     let per: usize = args[1].parse().unwrap();
     let bound: usize = if args[2] == "inf" { usize::MAX } else { args[2].parse().unwrap() };
@@ -603,6 +631,29 @@ pub fn run(ctx: &Ctx) -> i32 {
             states += v["distinct_schedules"].as_u64().unwrap_or(0);
             transitions += ex * v["max_points"].as_u64().unwrap_or(0);
             sched_notes.push(v);
+        }
+    }
+    // the environment answer "table busy": each operation x each non-empty subset of the three tables held by a foreign
+    // client of the public statics at the moment of every lookup (the code under test must wait, not guess)
+    {
+        let exe = std::env::current_exe().unwrap();
+        let p = crate::c01::run_proc(exe.to_str().unwrap(), &["sched", "busy"], 300);
+        let out = String::from_utf8_lossy(&p.stdout).to_string();
+        let v: Value = serde_json::from_str(out.lines().rev().find(|l| l.starts_with('{')).unwrap_or("")).unwrap_or(Value::Null);
+        if p.timed_out {
+            ctx.violation("tables:hang-while-a-table-is-busy", "an operation did not finish while another client held one of the climate tables for 25 ms at a time", json!({"part": "busy-tables"}));
+        } else if v.is_null() {
+            ctx.machinery_error(format!("busy-table child failed: exit {:?} {}", p.code, out.chars().take(300).collect::<String>()));
+        } else {
+            let runs = v["runs"].as_u64().unwrap_or(0);
+            ctx.eval(runs);
+            ctx.nontriv(v["lookups_delayed"].as_u64().unwrap_or(0).min(runs));
+            transitions += v["lookups_delayed"].as_u64().unwrap_or(0);
+            for f in v["failures"].as_array().cloned().unwrap_or_default() {
+                let what = if f["what"] == "panicked" { "panic" } else { "result-differs" };
+                ctx.violation(&format!("tables:{}-when-a-table-is-busy", what), &format!("{} with {} in use by another client at lookup time: {} (sequential result otherwise)", f["operation"], f["busy"], f["what"]), json!({"part": "busy-tables", "case": f}));
+            }
+            ctx.note("busy_tables", v);
         }
     }
     ctx.sample(json!({"part": "schedule", "config": "2 threads x 1 op", "example": sched_notes.first().map(|v| v["sample_schedule"].clone())}));
